@@ -1217,6 +1217,33 @@ def _declared_function(pr, b, i):
     return False
 
 
+def _lookalike_value(t):
+    """a constant whose type differs from the sum type `t` only as a unit sum differs from a general sum with the same
+    number of variants; None for other types"""
+    from hugr import tys
+
+    if not isinstance(t, tys.Sum) or not t.variant_rows:
+        return None
+    k = len(t.variant_rows)
+    if all(len(r) == 0 for r in t.variant_rows):
+        return ["@vsum", 0, ["@sum", [[BOOL]] + [[] for _ in range(k - 1)]], [["@bool", True]]]
+    return ["@vsum", 0, ["@unit", k], []]
+
+
+def _lookalike_output(pr, c):
+    """(position, value spec) for one wire of the `set_outputs` command `c` whose type has a look-alike, or None"""
+    try:
+        bo = pr.builder(c[1])
+        for j in range(len(c[2]) - 1, -1, -1):
+            w = progs.wire_ref(pr.env, c[2][j])
+            v = _lookalike_value(bo.hugr.port_type(w.out_port()))
+            if v is not None:
+                return j, v
+    except Exception:  # noqa: BLE001
+        return None
+    return None
+
+
 def inject_inconsistency(rng, prog, cls):
     """-> {"prog", "pos", "cls", "expect"} with exactly one inconsistency of class `cls` (command `pos` must
     raise), or None when the program offers no place for it."""
@@ -1298,6 +1325,16 @@ def inject_inconsistency(rng, prog, cls):
             return None
         i = rng.choice(cands)
         c = copy.deepcopy(prog[i])
+        if c[2] and rng.random() < 0.3:
+            # a row of the SAME length that differs in one type only, and there only by a look-alike: a unit sum against a
+            # general sum with as many variants (seeded change C13-13: an asymmetric `Sum.__eq__` taking that pair as equal)
+            la = _lookalike_output(pr, c)
+            if la is not None:
+                j, vspec = la
+                nx = "nla_inj"
+                c[2] = c[2][:j] + [["out", nx, 0]] + c[2][j + 1:]
+                pre = ["load", c[1], nx, ["val", vspec, None]]
+                return result(prog[:i] + [pre, c] + prog[i + 1:], i + 1)
         if c[2] and rng.random() < 0.7:
             c[2] = c[2][:-1]
             return result(replace_at(i, c), i)
@@ -1379,7 +1416,12 @@ def inject_inconsistency(rng, prog, cls):
         j = rng.randint(e0 + 1, max(e0 + 1, _spent_index(pr, name)))
         ws = [] if X != [] else [["out", "nx_inj", 0]]
         pre = [["add_block", name, "bx_inj", []]]
-        if ws:
+        la = _lookalike_value(X[0]) if len(X) == 1 else None
+        if la is not None and rng.random() < 0.7:
+            # a one-element exit row against its look-alike (unit sum / general sum with as many variants)
+            ws = [["out", "nx_inj", 0]]
+            pre.append(["load", "bx_inj", "nx_inj", ["val", la, None]])
+        elif ws:
             pre.append(["load", "bx_inj", "nx_inj", ["val", ["@bool", True], None]])
         pre.append(["set_single_succ_outputs", "bx_inj", ws])
         w = ["out", ["b", "bx_inj"], 0]
@@ -1459,6 +1501,24 @@ def inject_inconsistency(rng, prog, cls):
                     elif isinstance(op, ops.DataflowOp) or isinstance(op, ops.Call):
                         sib.append(["out", nm, -1])
             sib.append(["out", ["input", c[1]], -1])
+            # the static (function) port of a function declaration / definition that the target can see (its parent is
+            # the builder's region or an ancestor of it): a function is called or loaded, never wired as a value
+            # (seeded change C13-14: `Hugr.port_type` answering for FuncDefn / FuncDecl nodes)
+            chain = pr.chain(H, bo.parent_node.idx)
+            fn = []
+            for nm in pr.nodes_before(i, H):
+                nd = pr.env.n[nm]
+                p = H[nd].parent
+                if isinstance(H[nd].op, (ops.FuncDecl, ops.FuncDefn)) and p is not None and p.idx in chain:
+                    fn.append(["out", nm, 0])
+            for nm, j in pr.bdef.items():
+                fb = pr.env.b.get(nm)
+                if j < i and type(fb) is C["Function"] and fb.hugr is H and fb.parent_node.idx != H.root.idx:
+                    p = H[fb.parent_node].parent
+                    if p is not None and p.idx in chain and fb.parent_node.idx not in chain:
+                        fn.append(["out", ["b", nm], 0])
+            if fn and rng.random() < 0.5:
+                sib = fn
             cands.append((i, sib))
         if not cands:
             return None
